@@ -117,6 +117,9 @@ def select(units, pid, tier, only=None):
             continue
         if u.get('tier_only') and u['tier_only'] != tier:
             continue
+        # expensive units run in the quick tier only for the properties they matter most to
+        if tier == 'quick' and u.get('quick_for') and pid not in u['quick_for']:
+            continue
         if only and u['name'] not in only:
             continue
         sel.append(u)
